@@ -21,6 +21,10 @@ class Base:
     #: size bounds per tier: (nmax, rf_nmax)
     SIZES = {"quick": (64, 48), "thorough": (300, 128)}
     VARIANT_WEIGHTS = None
+    #: reach probes that a healthy campaign must fire (reported in the
+    #: evidence as probes_stuck_at_zero; a stuck probe means the workload or
+    #: fault mix must change)
+    EXPECTED_PROBES = ()
 
     def prepare(self, tier):
         pass
